@@ -349,7 +349,13 @@ class FnTerms:
                 env2[p] = ("lparam", p)
             return ("lambda", tuple(ps), self.term(e.body, nid, env2, depth + 1))
         if isinstance(e, ast.JoinedStr):
-            return ("fstr",)
+            parts = []
+            for v in e.values:
+                if isinstance(v, ast.Constant):
+                    parts.append(("const", v.value))
+                elif isinstance(v, ast.FormattedValue):
+                    parts.append(T(v.value))
+            return ("fstr", tuple(parts))
         if isinstance(e, ast.Await):
             return ("await", T(e.value))
         if isinstance(e, ast.Starred):
